@@ -50,6 +50,9 @@ FIELD_NAMES = [n for n in FIELD_NAMES if n not in RESERVED and not keyword.iskey
                and not keyword.issoftkeyword(n) and not n.endswith(("_data", "_length"))
                and not n.startswith("old_")]
 
+# legal for members of structs (and of their case bodies) only: packets define methods with these names
+STRUCT_ONLY_NAMES = ["write", "family", "action"]
+
 TYPE_WORDS = ["Item", "Npc", "NPC", "Coords", "Big", "Thing", "Info", "Map", "Char", "Stats", "Spell",
               "Type", "Reply", "File", "Warp", "Skill", "Shop", "Trade", "Entry", "Row", "A", "B2",
               "HTTP", "Id", "Pair", "Tile", "Spec", "Gfx", "Rec", "Emf", "Eif", "Level", "Guild",
@@ -113,6 +116,9 @@ class _Gen:
         self.size = SIZES["quick"]
         # directory reference graph; the static package itself makes the packet directories depend on net
         self.dir_edges = {("net/client", "net"), ("net/server", "net")}
+        self.field_pool = FIELD_NAMES
+        self.almost_fixed = set()
+        self.almost_fixed_pending = False
 
     def drop(self, feature):
         self.excluded[feature] = self.excluded.get(feature, 0) + 1
@@ -170,9 +176,27 @@ class _Gen:
                 self.type_names.add(cand)
                 self.snake_by_dir[dir_].add(spec.pascal_to_snake(cand))
                 return cand
+        if self.boolean(0.08):
+            # NpcKill and Npc_Kill in ONE directory: distinct classes, distinct module stems (npc_kill / npc__kill)
+            cands = []
+            for (n, k, d) in self.decl_order:
+                if d != dir_ or n in ("PacketFamily", "PacketAction"):
+                    continue
+                for i in range(1, len(n)):
+                    if n[i].isupper() and n[i - 1] != "_":
+                        v = n[:i] + "_" + n[i:]
+                        sn = spec.pascal_to_snake(v)
+                        if (v not in self.type_names and sn not in self.snake_by_dir[dir_]
+                                and not any(sn in s_ for s_ in self.snake_by_dir.values())):
+                            cands.append(v)
+            if cands:
+                cand = self.pick(sorted(set(cands)))
+                self.type_names.add(cand)
+                self.snake_by_dir[dir_].add(spec.pascal_to_snake(cand))
+                return cand
         for _ in range(50):
             n = self.draw(st.integers(1, 3))
-            name = "".join(self.draw(st.sampled_from(TYPE_WORDS)) for _ in range(n))
+            name = ("_" if self.boolean(0.04) else "").join(self.draw(st.sampled_from(TYPE_WORDS)) for _ in range(n))
             if not name[0].isalpha():
                 continue
             k = 2
@@ -291,7 +315,7 @@ class _Gen:
         self.gen_instrs(ctx, body, n)
         if not body and not self.f["empty_body"] and not is_case:
             self.drop("empty_body")
-            body.append({"tag": "field", "name": _uniq_name(self.draw, FIELD_NAMES, ctx["names"], "f"),
+            body.append({"tag": "field", "name": _uniq_name(self.draw, self.field_pool, ctx["names"], "f"),
                          "type": "char"})
         return body, ctx
 
@@ -364,7 +388,7 @@ class _Gen:
             getattr(self, "i_" + kind)(ctx, body)
 
     def i_field(self, ctx, body):
-        name = _uniq_name(self.draw, FIELD_NAMES, ctx["names"], "f")
+        name = _uniq_name(self.draw, self.field_pool, ctx["names"], "f")
         typ = self.scalar_type(ctx["dir"])
         ins = {"tag": "field", "name": name, "type": typ}
         r = self.an.resolve(typ)
@@ -450,6 +474,13 @@ class _Gen:
             choices.append(("enum", 10))
         if structs:
             choices.append(("struct", 30))
+        breaking = [x for x in structs if any(i["tag"] == "break" for i in spec.Analysis.flatten(self.an.types[x][0]["body"]))]
+        if breaking and self.boolean(0.45 if ctx["lex"] else 0.12):
+            # elements that carry their own <chunked>/<break>: one element spans several chunks of the parent
+            return self.pick_type(dir_, breaking)
+        almost = [x for x in structs if x in self.almost_fixed]
+        if almost and not has_length and not delimited and self.boolean(0.35):
+            return self.pick_type(dir_, almost)
         fixed = [x for x in structs if self.an.struct_fixed_size(x)]
         if fixed and not has_length and not delimited and self.boolean(0.5):
             # the element count of such an array is derived from the struct's computed size
@@ -475,7 +506,7 @@ class _Gen:
             name = self.pick(reuse)
             ctx["names"].add(name)
         else:
-            name = _uniq_name(self.draw, FIELD_NAMES, ctx["names"], "f")
+            name = _uniq_name(self.draw, self.field_pool, ctx["names"], "f")
         ins = {"tag": "array", "name": name}
         delimited = ctx["lex"] and self.boolean(0.55)
         same = ctx["names"].outer_len.get(name)
@@ -516,7 +547,7 @@ class _Gen:
         body.append(ins)
 
     def i_lenmember(self, ctx, body):
-        lname = _uniq_name(self.draw, FIELD_NAMES, ctx["names"], "f")
+        lname = _uniq_name(self.draw, self.field_pool, ctx["names"], "f")
         lt = self.weighted([("char", 6), ("short", 3), ("byte", 2), ("three", 1), ("int", 1)])
         lins = {"tag": "length", "name": lname, "type": lt}
         off = self.draw(st.sampled_from([0, 0, 0, 1, 1, -1, 2, -2, 3]))
@@ -539,13 +570,13 @@ class _Gen:
                 ctx["dummy"] = False
         if self.boolean(0.25) and not ctx["opt"]:
             # something in between
-            mid = {"tag": "field", "name": _uniq_name(self.draw, FIELD_NAMES, ctx["names"], "f"),
+            mid = {"tag": "field", "name": _uniq_name(self.draw, self.field_pool, ctx["names"], "f"),
                    "type": self.pick(INT_TYPES)}
             body.append(mid)
             ctx["fields"][mid["name"]] = mid
             ctx["switchable"].append(mid["name"])
         if self.boolean(0.5):
-            name = _uniq_name(self.draw, FIELD_NAMES, ctx["names"], "f")
+            name = _uniq_name(self.draw, self.field_pool, ctx["names"], "f")
             ins = {"tag": "field", "name": name, "type": self.pick(["string", "string", "encoded_string"]),
                    "length": lname}
             if self.boolean(0.3):
@@ -575,7 +606,7 @@ class _Gen:
             # i_array may have fallen back to i_field: then the length field is unreferenced -> fix up
             new = body[n_before:]
             if not any(x.get("length") == lname for x in new):
-                name = _uniq_name(self.draw, FIELD_NAMES, ctx["names"], "f")
+                name = _uniq_name(self.draw, self.field_pool, ctx["names"], "f")
                 ins = {"tag": "field", "name": name, "type": "string", "length": lname}
                 if ctx["opt"]:
                     ins["optional"] = True
@@ -605,6 +636,10 @@ class _Gen:
         ctx["opt"] = False
 
     def i_chunked(self, ctx, body):
+        if self.boolean(0.07):
+            # a section with nothing in it (left over after an edit): switches the mode on and off again
+            body.append({"tag": "chunked", "body": []})
+            return
         inner = []
         sub = dict(ctx, lex=True, depth=ctx["depth"] + 1)
         # shared (mutable) scope objects stay shared: names, switchable, switched
@@ -690,6 +725,17 @@ class _Gen:
         self.refresh()
 
 
+def _user_types(g, body):
+    """Directories of the declared types a body refers to."""
+    where = {n: d for (n, k, d) in g.decl_order}
+    out = set()
+    for ins in spec.Analysis.flatten(body):
+        t = (ins.get("type") or "").partition(":")[0]
+        if t in where:
+            out.add(where[t])
+    return out
+
+
 def _has_dummy(body):
     return any(i["tag"] == "dummy" for i in spec.Analysis.flatten(body))
 
@@ -764,8 +810,13 @@ def trees(draw, features=None, min_decls=2, max_decls=None, max_packets=None, ca
             g.add_decl(dir_, g.gen_enum(dir_))
         else:
             name = g.new_type_name(dir_)
+            g.field_pool = FIELD_NAMES + STRUCT_ONLY_NAMES
             body, _ = g.gen_struct_body(dir_)
+            g.field_pool = FIELD_NAMES
             d = {"kind": "struct", "name": name, "body": body}
+            if g.almost_fixed_pending:
+                g.almost_fixed.add(name)
+                g.almost_fixed_pending = False
             c = g.comment()
             if c:
                 d["comment"] = c
@@ -784,11 +835,26 @@ def trees(draw, features=None, min_decls=2, max_decls=None, max_packets=None, ca
             continue
         used.add((dir_, fm, ac))
         body, _ = g.gen_struct_body(dir_)
+        g.almost_fixed_pending = False
         d = {"kind": "packet", "family": fm, "action": ac, "body": body}
         c = g.comment()
         if c:
             d["comment"] = c
         g.add_decl(dir_, d)
+        other = "net/server" if dir_ == "net/client" else "net/client"
+        if (other, fm, ac) not in used and g.boolean(0.3):
+            # the same exchange declared in both directions, character for character (pings, pongs, ...)
+            refs = _user_types(g, body)
+            if all(g.may_reference(other, rd) for rd in refs):
+                for rd in refs:
+                    if rd != other:
+                        g.dir_edges.add((other, rd))
+                        for par in g.PARENTS.get(rd, []):
+                            if par != other:
+                                g.dir_edges.add((other, par))
+                import copy as _copy
+                used.add((other, fm, ac))
+                g.add_decl(other, _copy.deepcopy(d))
     g.tree["_excluded"] = g.excluded
     return g.tree
 
@@ -804,7 +870,7 @@ def _gen_simple_body(self, dir_):
     def member():
         k = self.weighted([("int", 6), ("bool", 3), ("enum", 3 if enums else 0), ("str", 2),
                            ("struct", 2 if fixed_structs else 0)])
-        ins = {"tag": "field", "name": _uniq_name(self.draw, FIELD_NAMES, names, "f")}
+        ins = {"tag": "field", "name": _uniq_name(self.draw, self.field_pool, names, "f")}
         if k == "int":
             ins["type"] = self.pick(INT_TYPES)
         elif k == "bool":
@@ -823,6 +889,18 @@ def _gen_simple_body(self, dir_):
         return ins
 
     body = [member() for _ in range(self.draw(st.integers(1, 3)))]
+    if self.boolean(0.2):
+        # "almost fixed": fixed-size members and one optional tail (never a fixed-size struct, but a legal
+        # element of arrays that run to the end of the data)
+        if self.f["optional_array"] and self.boolean(0.5):
+            body.append({"tag": "array", "name": _uniq_name(self.draw, self.field_pool, names, "f"),
+                         "type": self.pick(INT_TYPES), "length": str(self.draw(st.integers(1, 3))), "optional": True})
+        else:
+            tail = member()
+            tail["optional"] = True
+            body.append(tail)
+        self.almost_fixed_pending = True
+        return body, {}
     if self.boolean(0.45):
         inner = [member() for _ in range(self.draw(st.integers(1, 3)))]
         if self.boolean(0.5):
@@ -841,7 +919,44 @@ def _gen_simple_body(self, dir_):
 _Gen.gen_simple_body = _gen_simple_body
 
 
+def _gen_rare_body(self, dir_):
+    """Small bodies whose ONLY optional / only typed construct is an unusual one: what a generator that
+    emits imports or guards 'next to their use' gets wrong when nothing else in the object needs them."""
+    names = set()
+    nm = lambda: _uniq_name(self.draw, self.field_pool, names, "f")   # noqa: E731
+    shape = self.pick(["opt_length_break_string", "opt_length_opt_string", "only_opt_length_array",
+                       "only_hardcoded", "only_opt_string", "only_opt_enum"])
+    ln = nm()
+    lt = self.pick(["char", "short", "byte"])
+    styp = self.pick(["string", "string", "encoded_string"])
+    if shape == "opt_length_break_string" and self.f["optional_length_field"] and self.f["optional_lenref"]:
+        s_ = {"tag": "field", "name": nm(), "type": styp, "length": ln}
+        if self.boolean(0.3):
+            s_["padded"] = True
+        return [{"tag": "chunked", "body": [{"tag": "length", "name": ln, "type": lt, "optional": True},
+                                            {"tag": "break"}, s_]}], {}
+    if shape == "opt_length_opt_string" and self.f["optional_length_field"] and self.f["optional_lenref"]:
+        return [{"tag": "length", "name": ln, "type": lt, "optional": True},
+                {"tag": "field", "name": nm(), "type": styp, "length": ln, "optional": True}], {}
+    if shape == "only_opt_length_array" and self.f["optional_length_field"] and self.f["optional_lenref"] \
+            and self.f["optional_array"]:
+        return [{"tag": "length", "name": ln, "type": lt, "optional": True},
+                {"tag": "array", "name": nm(), "type": self.pick(INT_TYPES), "length": ln, "optional": True}], {}
+    if shape == "only_hardcoded":
+        return [{"tag": "field", "name": None, "type": self.pick(INT_TYPES), "value": str(self.draw(st.integers(0, 200)))}], {}
+    if shape == "only_opt_enum":
+        enums = self.visible_types(dir_, "enum")
+        if enums:
+            return [{"tag": "field", "name": ln, "type": self.pick_type(dir_, enums), "optional": True}], {}
+    return [{"tag": "field", "name": ln, "type": styp, "optional": True}], {}
+
+
+_Gen.gen_rare_body = _gen_rare_body
+
+
 def _gen_struct_body(self, dir_):
+    if self.draw(st.integers(0, 99)) < 5:
+        return self.gen_rare_body(dir_)
     if self.draw(st.integers(0, 99)) < 22:
         return self.gen_simple_body(dir_)
     body, ctx = self.gen_body(dir_, lex=False, reached_optional=False, depth=0, max_n=self.size["body_n"])
